@@ -38,6 +38,9 @@ def mksrc(spec):
         return v
     if kind == 'tid':
         return TermId.from_curie(v)
+    if kind == 'utid':
+        from impl_graph import user_tid
+        return user_tid(v)
     return OTHERS[v]
 
 
